@@ -89,7 +89,7 @@ func (r *Run) Rng(stream int64) *rand.Rand {
 	return rand.New(rand.NewSource(r.Seed*1000003 + stream*7919 + int64(r.Shard)*104729 + 17))
 }
 
-func (r *Run) Eval(n int64) { r.evals.Add(n) }
+func (r *Run) Eval(n int64)         { r.evals.Add(n) }
 func (r *Run) Inconclusive(n int64) { r.inconc.Add(n) }
 
 func (r *Run) Count(name string, n int64) {
